@@ -202,6 +202,7 @@ func main() {
 		"different constraints the version is accepted if it is correct for any one parent's constraint (the property speaks of 'the declared constraint')."
 	c.Rule += " dep: a fifth of the cases list one dependency twice with different constraints (every entry counts)."
 	c.Rule += " " + "A third party edits the Lock right before call k of Resolve."
+	c.Rule += " " + "The real revision reconciler over a Lock whose dependency leaves, returns violating, returns fine, with deactivation and re-activation; a missing dependency next to an installed package of the same repository path on another registry."
 	c.Assumptions = []string{
 		"github.com/Masterminds/semver NewVersion/NewConstraint/Constraints.Check/Version.Compare are the trusted primitives",
 		"a digest constraint is exactly sha256:<64 lowercase hex>",
